@@ -242,6 +242,28 @@ def _null_label(test_ast, subject):
     return None
 
 
+def aliases(fi, subj):
+    """Texts that denote the same object as `subj` inside fi: subj itself plus locals assigned exactly once from it."""
+    out = {subj}
+    for n in walk_own(fi.node):
+        if isinstance(n, ast.Assign) and len(n.targets) == 1 and isinstance(n.targets[0], ast.Name) and unparse(n.value) == subj:
+            nm = n.targets[0].id
+            defs = [m for m in walk_own(fi.node) if isinstance(m, (ast.Assign, ast.AugAssign, ast.AnnAssign)) and any(
+                isinstance(t, ast.Name) and t.id == nm for t in (m.targets if isinstance(m, ast.Assign) else [m.target]))]
+            if len(defs) == 1:
+                out.add(nm)
+    return out
+
+
+def alias_origin(fi, name):
+    """Attribute expression text a local alias was assigned from (or None)."""
+    for n in walk_own(fi.node):
+        if isinstance(n, ast.Assign) and len(n.targets) == 1 and isinstance(n.targets[0], ast.Name) and n.targets[0].id == name \
+                and isinstance(n.value, ast.Attribute):
+            return n.value
+    return None
+
+
 def paths_avoiding(c, targets, skip_edges):
     """Is exit reachable from entry on normal edges without passing a node in `targets`,
     never taking an edge in skip_edges={(test node, label)}? Returns witness path or None."""
@@ -285,6 +307,7 @@ GUARDS = {
 
 def _skip_edges(c, fi, subjects=()):
     out = set()
+    subjects = {a for s_ in subjects for a in aliases(fi, s_)}
     for t in c.nodes:
         if t.kind != "test":
             continue
@@ -430,8 +453,9 @@ def rule_release(ctx, sites):
                 c = ctx.cfg(fi)
                 subj = f"self.{name}"
                 if kind == "attr":
-                    tg = [n for n in c.nodes if (n.kind == "call" and call_attr(n.ast) == "cancel" and unparse(n.ast.func.value) == subj)
-                          or (n.kind == "await" and isinstance(n.ast, ast.Await) and unparse(n.ast.value) == subj)]
+                    al = aliases(fi, subj)
+                    tg = [n for n in c.nodes if (n.kind == "call" and call_attr(n.ast) == "cancel" and unparse(n.ast.func.value) in al)
+                          or (n.kind == "await" and isinstance(n.ast, ast.Await) and unparse(n.ast.value) in al)]
                 else:
                     tg = []
                     for n in c.nodes:
@@ -520,6 +544,8 @@ def rule_cancel_await(ctx, sites):
         # which routines can the task be running?
         attr = None
         e = cn.ast.func.value
+        if isinstance(e, ast.Name) and alias_origin(fi, e.id) is not None:
+            e = alias_origin(fi, e.id)
         if isinstance(e, ast.Attribute):
             attr = e.attr
         elif isinstance(e, ast.Name):
@@ -533,7 +559,8 @@ def rule_cancel_await(ctx, sites):
         for r in routines:
             why = may_raise_by_design(ctx, r)
             if why:
-                dg = [t for t in c_of(ctx, fi).nodes if t.kind == "test" and _null_label(t.ast, subj) == "T" and isinstance(t.ast, ast.Call)
+                subs = aliases(fi, subj) | ({unparse(alias_origin(fi, subj))} if subj.isidentifier() and alias_origin(fi, subj) is not None else set())
+                dg = [t for t in c_of(ctx, fi).nodes if t.kind == "test" and any(_null_label(t.ast, sb) == "T" for sb in subs) and isinstance(t.ast, ast.Call)
                       and call_attr(t.ast) == "done" and c_of(ctx, fi).dominated_by_branch(t, "F", an)]
                 ctx.ob(R, fi, an, bool(dg) or not _propagates(an),
                        f"`await {subj}` is not guarded by `not {subj}.done()`: when {r.name} already died with an error ({why}) the closer re-raises "
